@@ -364,7 +364,7 @@ Proof.
   destruct (HInv_exec a0 jobs sched1 _ _ _ _ _ (HInv_init s0 a0 jobs HR Hwf)) as (a1 & go1 & gi1 & HG1).
   fold cs0 in HG1. fold cs1 in HG1. fold s1 in HG1.
   destruct (F2_nth _ _ _ _ _ _ _ (H_c _ _ _ _ _ _ _ HG1) Hi) as (j & Hj & HJ).
-  destruct j as [d|p k|ps0|out auto]; cbn [JInv] in HJ; try contradiction.
+  destruct j as [d|p k|ps0|out auto|w0 ps0 inb0 int0 outb0]; cbn [JInv] in HJ; try contradiction.
   destruct (complete_exec P T Hu jobs a0 i ps0 Hj sched2 cs1 s1 a1 go1 gi1 (pagesq_start ps) HG1 Hi)
     as (q' & Hq' & Hsh & HC).
   - intro E. discriminate.
